@@ -291,8 +291,12 @@ def _surviving(lay, impl):
     return [(si, mi, m) for si, s in enumerate(lay["svcs"]) for mi, m in enumerate(s["mounts"]) if (si, mi) not in dropped]
 
 
-def finding_of(case, impl, why):
-    """The shapes are evaluated on the mounts that survive cleanupMounts (read from the implementation's
+def finding_of(case, impl, why, model=None):
+    """A failure is attributed to a known finding only if (a) it has that finding's shape and (b) the
+    implementation's output on this case is one the model of the unchanged code allows (the model is
+    proved to have exactly these defects: C05_trash_safe_fails_F1/_F2, C05_lost_full_fails); when
+    the model was not run on the case (failing-input search) only the shape is used.
+    The shapes are evaluated on the mounts that survive cleanupMounts (read from the implementation's
     own `mounts=` field), because that is the layout balanceBlock and C05_trash_safe_partial see.
     F1: under-replication/trash-safety failure and some device is mounted on >= 2 servers.
     F2: trash-safety failure, no device mounted twice, some server has >= 2 mounts, and a replica
@@ -304,6 +308,8 @@ def finding_of(case, impl, why):
         return None
     lay = parse_case(case)
     if lay is None:
+        return None
+    if model is not None and not compare(case, impl, model):
         return None
     tag = why.split(":", 1)[0]
     sv = _surviving(lay, impl)
